@@ -22,7 +22,7 @@ func init() {
 	})
 	register(&propDef{
 		id:          "C11",
-		explanation: "Decides the structural clause of C11: from each of the four line entry points the line state machine (executeInternalPath64) and the non-closing extractor (getPathRectClipLine) are call-graph reachable, and the polygon machine (RectClip64.executeInternal, checkEdges, tidyEdgePair — which close paths up through rectangle corners) is NOT reachable (C11.reach); the driver skips one-point paths, clips two-point paths, appends only the extractor's output, and the extractor emits every ring node unfiltered (C11.extract); the main scan starts at index 1 on every entry (C11.start); the four end-point blocks of getSegmentIntersection are images of one another (C11.mirror.seg). Also: (vertex-fixed) an emitted vertex is never overwritten, except under a sign test of a dot product. (skip-only) a line is skipped only on a length test or disjoint bounds. Does NOT decide the crossing logic of the line machine.",
+		explanation: "Decides the structural clause of C11: from each of the four line entry points the line state machine (executeInternalPath64) and the non-closing extractor (getPathRectClipLine) are call-graph reachable, and the polygon machine (RectClip64.executeInternal, checkEdges, tidyEdgePair — which close paths up through rectangle corners) is NOT reachable (C11.reach); the driver skips one-point paths, clips two-point paths, appends only the extractor's output, and the extractor emits every ring node unfiltered (C11.extract); the main scan starts at index 1 on every entry (C11.start); the four end-point blocks of getSegmentIntersection are images of one another (C11.mirror.seg). Also: (vertex-fixed) an emitted vertex is never overwritten, except under a sign test of a dot product. (skip-only) a line is skipped only on a length test or disjoint bounds. Does NOT decide the crossing logic of the line machine. Also (sibling.args): the line clipper and the polygon clipper call getIntersection with the segment's ends in the same order pattern (current->previous first, previous->current for the pass-through re-intersection).",
 		notDecided:  []string{"crossing/intersection logic of executeInternalPath64", "1-unit rounding of intersection points", "coverage of the inside parts"},
 		rules: []func(*Ctx){
 			ruleReach("C11.reach", func() []reachReq {
@@ -40,6 +40,7 @@ func init() {
 			ruleRectSkipOnly("C11.skip-only", "(RectClipLines64).Execute", []string{"(RectClip64).executeInternalPath64"}),
 			ruleInitOnlyField("C11.vertex-fixed", "OutPt2", "pt", 2, "every vertex of a clipped line is an input vertex or a border intersection; overwriting the previous output vertex ('extending the segment') loses the far end of a spike that doubles back on itself"),
 			ruleSegIntersectMirrorSem("C11.mirror.seg"),
+			ruleIntersectionArgOrder("C11.sibling.args"),
 			ruleLineScanStart("C11.start"),
 		},
 	})
